@@ -14,6 +14,7 @@ from concurrent.futures import ThreadPoolExecutor
 from . import build
 from .build import VERIF, REPO
 from . import plans
+from . import coverage
 
 # VERIF_OUT redirects evidence and replays (used only when evaluating seeded changes in scratch worktrees, so that the
 # committed evidence is never overwritten by a run against a modified tree)
@@ -199,6 +200,17 @@ def run_check(prop, tier, seed):
     t_start = time.time()
     plan = plans.PLANS[prop]
     runs = plan["runs"](tier)
+    if tier == "thorough" and plan.get("coverage", True) and not os.environ.get("VERIF_NO_COV"):
+        seen_eng = set()
+        for r in list(runs):
+            if r["engine"] in seen_eng or r["flavour"] == "tsan":
+                continue
+            seen_eng.add(r["engine"])
+            rc = dict(r)
+            rc.update(flavour="cov", cases=max(3, int(r["cases"]) // 60), binary_tier="quick", corpus=True, samples=0)
+            if plans.cov_exclude(r["engine"]):
+                rc["exclude"] = plans.cov_exclude(r["engine"])
+            runs.append(rc)
     os.makedirs(RUNDIR, exist_ok=True)
     os.makedirs(EVIDENCE, exist_ok=True)
     build.prune()
@@ -231,7 +243,13 @@ def run_check(prop, tier, seed):
 
     # 2. tasks
     tasks = []
+    cov_prefix = None
+    if tier == "thorough" and plan.get("coverage", True) and not os.environ.get("VERIF_NO_COV"):
+        cov_prefix = coverage.prefix_dir(RUNDIR, prop, tier)
+        subprocess.call(["rm", "-rf", cov_prefix])
     for ri, r in enumerate(runs):
+        if r["flavour"] == "cov":
+            r.setdefault("env", {}).update({"GCOV_PREFIX": cov_prefix or "/dev/null", "GCOV_PREFIX_STRIP": "0"})
         exe = exes[r["_bin"]]
         r["_configs"] = subprocess.run([exe, "--list"], stdout=subprocess.PIPE, text=True).stdout.split("\n")
         nsh = r.get("shards", NSHARDS)
@@ -378,6 +396,12 @@ def run_check(prop, tier, seed):
         tree_hash=build.tree_hash(),
         workers=len(tasks),
     )
+    if cov_prefix and any(r["flavour"] == "cov" for r in runs):
+        try:
+            cov["anchor_line_coverage"] = coverage.anchor_report(prop, cov_prefix)
+        except Exception as e:  # noqa: BLE001 - coverage is supplementary evidence, never a verdict
+            cov["anchor_line_coverage"] = dict(error=str(e))
+        subprocess.call(["rm", "-rf", cov_prefix])
     extra = plan.get("evidence_extra")
     if extra:
         cov.update(extra(tasks, summaries))
